@@ -932,6 +932,55 @@ func main() {
 		checkWritten(o, idx, "build", k, v.flags, plain, out, err, pan)
 	}
 
+	// -- systematic: EVERY request kind x protocol 3, 4, 5 x {no compressor, snappy, lz4, ident} through the real builders ------------
+	// (independent of the seed) decompressing the wire body ONCE gives exactly the body the same builder writes
+	// without compressor; the flag is set iff the body is compressed; the model must produce the same frame
+	for _, version := range []byte{3, 4, 5} {
+		for _, k := range []int{kNone, kSnappy, kLz4, kIdent} {
+			for kind := 0; kind <= 8; kind++ { // 8 = PREPARE with a keyspace (protocol 5 only)
+				if kind == 8 && version < 5 {
+					continue
+				}
+				long := strings.Repeat("SELECT a, b, c FROM ks.tbl WHERE id = ? AND x = ? ", 6)
+				req := &gocql.VerifC18Req{Statement: long, Values: [][]byte{[]byte("value-one-value-one"), {1, 2, 3, 4}}, PreparedID: []byte("0123456789abcdef"),
+					Opts: map[string]string{"CQL_VERSION": "3.0.0"}, Events: []string{"TOPOLOGY_CHANGE", "STATUS_CHANGE"}, Data: []byte("\x00user\x00password-password"), PageSize: 100}
+				build := func(f *gocql.VerifC18Framer) ([]byte, error, interface{}) {
+					if kind == 8 {
+						return f.BuildPrepare(7, long, "keyspace_name_keyspace_name")
+					}
+					return f.Build(kind, 7, req)
+				}
+				mk, name := kind, "/"+kindName[k]
+				if kind == 8 {
+					mk, name = gocql.VerifC18Prepare, "+keyspace/"+kindName[k]
+				}
+				pout, perr, ppan := build(gocql.VerifC18NewFramer(nil, version))
+				if perr != nil || ppan != nil || len(pout) < 9 {
+					violate(-1, "build-panics", "", fmt.Sprintf("systematic %s v%d without compressor: error %v panic %v", reqNames[mk], version, perr, ppan))
+					continue
+				}
+				plain := pout[9:]
+				out, err, pan := build(gocql.VerifC18NewFramer(compressorOf(k), version))
+				idx := o.Case("build-systematic/"+reqNames[mk]+name, true, fmt.Sprintf("CBuild %s %d false %s false 7 %s %s",
+					ckTerm(k, [][]byte{plain}, nil), version, reqNames[mk], hlib.ZList(plain), resTerm(out, err, pan)))
+				if err != nil || pan != nil {
+					violate(idx, "build-error", "", fmt.Sprintf("systematic %s v%d with %s: error %v panic %v", reqNames[mk], version, kindName[k], err, pan))
+					continue
+				}
+				v, ok := specParse(out)
+				if !ok {
+					violate(idx, "frame-shape", "", "frame shorter than its header")
+					continue
+				}
+				wantFlag := k != kNone && mk != gocql.VerifC18Startup && mk != gocql.VerifC18Options
+				if (v.flags&flagCompress != 0) != wantFlag {
+					violate(idx, "flag-rule", "", fmt.Sprintf("systematic %s v%d with %s: header flags %#x", reqNames[mk], version, kindName[k], v.flags))
+				}
+				checkWritten(o, idx, fmt.Sprintf("systematic %s%s v%d", reqNames[mk], name, version), k, v.flags, plain, out, err, pan)
+			}
+		}
+	}
+
 	// -- frame size limit of finish ------------------------------------------------------------------------------------
 	{
 		limit := gocql.VerifC18MaxFrameSize
